@@ -364,3 +364,36 @@ theorem sequence_unique (p : PInput) (hc : checkWf p = (true, true, true)) (s₁
   rw [a₁ v hv1 hv2, a₂ v hv1 hv2]
 
 end SPModel.C02
+
+namespace SPModel.Pipeline
+open SPModel Layout
+
+/-- the Boolean check the driver evaluates implies `CrossOk` -/
+theorem crossOk_spec (p : PInput) (h : crossOk p = true) : CrossOk p := by
+  intro c hc ci hci fl hfl
+  simp only [crossOk, List.all_eq_true, List.mem_range, Bool.and_eq_true, decide_eq_true_eq, Bool.or_eq_true,
+    Bool.not_eq_true', decide_eq_false_iff_not] at h
+  obtain ⟨h1, h2⟩ := h c hc ci hci fl hfl
+  refine ⟨h1, fun t ht1 ht2 => ?_⟩
+  rcases h2 t (by omega) with h3 | h3
+  · exact absurd ht1 h3
+  · exact h3
+
+end SPModel.Pipeline
+
+namespace SPModel.C02
+open SPModel Pipeline Layout
+
+/-- **The compiled formula and the trial sequences.**  For an input of the compilation whose decidable side
+    conditions hold (all evaluated by the driver on every real block of the correspondence run) and whose
+    compilation returns φ: the sequences `PValid` accepts and the models of φ correspond — every accepted sequence
+    is the design-variable projection of a model, every model projects to an accepted sequence, that sequence is
+    unique, and (by `model_unique`) so is the model. -/
+theorem sequences_iff_models (p : PInput) (hc : checkWf p = (true, true, true)) (hseq : seqOk p = true)
+    (hx : crossOk p = true) (φ : Cnf) (hφ : buildCnf p = .ok φ) :
+    (∀ s, PValid p s → ∃ τ, Agree (variablesPerSample p.layout) (assignOf p s) τ ∧ cnfSat τ φ = true) ∧
+    (∀ τ, cnfSat τ φ = true → ∃ s, PValid p s ∧ Agree (variablesPerSample p.layout) (assignOf p s) τ) :=
+  ⟨fun s hv => model_of_sequence p hc hseq (crossOk_spec p hx) φ hφ s hv,
+   fun τ hτ => sequence_of_model p hc hseq (crossOk_spec p hx) φ hφ τ hτ⟩
+
+end SPModel.C02
